@@ -41,7 +41,8 @@ BUDGET = {
 }
 
 WDS = ["plain", "with space", "quo'te", 'dq"x', "dol$HOME", "semi;colon", "star*", "ünï", "amp&x", "paren(x)",
-       "hash#x", "tilde~", "two  spaces", "a`b", "nested/sub dir", "pipe|x", "ex!cl", "br{a,b}", "-dash"]
+       "hash#x", "tilde~", "two  spaces", "a`b", "nested/sub dir", "pipe|x", "ex!cl", "br{a,b}", "-dash",
+       "run {cores} {std_out}", "{job_name}", "m{memory}q{queue}"]
 SPECIAL = re.compile(r"[^A-Za-z0-9_./-]")
 
 LINES = [
@@ -51,6 +52,9 @@ LINES = [
     "  echo indented", "echo \"tab\there\"", "for i in 1 2; do echo $i; done", "echo $0 > /dev/null",
     "echo pwd=$(basename \"$PWD\")", "ls made_* 2>/dev/null | wc -l", "echo 'semi;colon' ; echo again",
     "false || echo recovered", "! false", "test -f missing_{i} && echo found",
+    # shell variables and braces that look like the place-holders of a backend's script template
+    'cores=3; memory=9; echo "n=${cores} m=${memory}g q=${queue:-none}"', "echo '{cores} {memory} {queue} {job_name}'",
+    "echo {std_out} {std_err} > made_{i}.tpl", "echo ${job_name:-unnamed} {walltime} {account}",
 ]
 FAILING = ["false", "exit 3", "test -f definitely_missing", "(exit 7)", "ls /nonexistent_dir_xyz 2>/dev/null", "[ 1 = 2 ]"]
 
